@@ -382,7 +382,7 @@ def _integral(ring):
 
 # /repo commits that repaired the defect (frag/C04.fix-<n>.diff); None = repair proposed, not applied yet (finding stays `known`)
 FIX = {1: "964499d", 2: "6fd4ec8", 3: "0c8663a", 4: "6534350", 5: "e1cb767", 6: "3b7f5ec", 7: "d8dba27", 8: "5a5d83b", 9: "8a3f862", 10: "1bd6bf3", 11: "99e44e4", 12: "8c01dc7",
-       13: "b86ac06", 14: "df009ee", 15: "e6cb1e7", 16: "d984652", 17: None}
+       13: "b86ac06", 14: "df009ee", 15: "e6cb1e7", 16: "d984652", 17: "ef0260c"}
 
 
 _SRC_STATE = {}
